@@ -1,7 +1,8 @@
 #!/bin/bash
 # full_matrix.sh <outdir> [shards]   every seeded change x its own check(s), every benign change x all four checks
 # Runs in <shards> scratch worktrees in parallel (default 3). Results: <outdir>/seeded.jsonl, <outdir>/benign.jsonl
-OUTD="$1"; N="${2:-3}"; mkdir -p "$OUTD"; rm -f "$OUTD"/*.jsonl "$OUTD"/jobs.*
+# ONLY="C07 C18" restricts the run to those checks.
+OUTD="$1"; N="${2:-3}"; ONLY="${ONLY:-}"; mkdir -p "$OUTD" /tmp/benign; rm -f "$OUTD"/*.jsonl "$OUTD"/jobs.*
 i=0
 for d in /verif/seeded/C*/; do
   id=$(basename $d); prop=${id%%-*}
@@ -9,12 +10,15 @@ for d in /verif/seeded/C*/; do
   checks=$(python3 -c "
 import json,sys
 m=json.load(open('$d/meta.json')); c={m['property']}|{x['check'] for x in m.get('detection',[]) if x.get('exit')==1}
+only=set('$ONLY'.split())
+if only: c=c&only
 print(' '.join(sorted(c)))")
+  [ -z "$checks" ] && continue
   echo "seeded ${d%/} $checks" >> "$OUTD/jobs.$((i % N))"; i=$((i+1))
 done
 for f in /verif/benign/*.diff; do
   b=$(basename $f .diff); mkdir -p /tmp/benign/dir-$b; cp $f /tmp/benign/dir-$b/patch.diff
-  echo "benign /tmp/benign/dir-$b C07 C11 C17 C18" >> "$OUTD/jobs.$((i % N))"; i=$((i+1))
+  echo "benign /tmp/benign/dir-$b ${ONLY:-C07 C11 C17 C18}" >> "$OUTD/jobs.$((i % N))"; i=$((i+1))
 done
 for s in $(seq 0 $((N-1))); do
   ( export VERIF_WT=/tmp/wt-matrix-$s
